@@ -1427,7 +1427,11 @@ def isunresolvable(t: tp.Any) -> bool:
         >>> isunresolvable(...)
         True
     """
-    return t in _UNRESOLVABLE
+    # Subscripted callables (`Callable[[int], str]`) and class objects (`type`, `type[X]`)
+    #   have no data to convert either.
+    return (
+        t in _UNRESOLVABLE or t is type or tp.get_origin(t) in (abc_Callable, type)
+    )
 
 
 _UNRESOLVABLE = (
